@@ -32,6 +32,7 @@ type Env struct {
 	sumCache      sync.Map // *ssa.Function -> summaryFn (or nil marker)
 	interpCache   sync.Map // *ssa.Function -> bool
 	preemptBound  int
+	tierN         int // 0 quick, 1 thorough (verifrt.Tier)
 	sqlTraces     int      // statement traces replayed on SQLite (sqlcheck)
 	sqlMismatch   []string // disagreements between the relational model and SQLite
 	overlay       map[string][]byte
